@@ -8,4 +8,6 @@ git -C $WT apply $D/patch.diff || { git -C /repo worktree remove --force $WT; ec
 mkdir -p /tmp/wt/ev
 GNPY_REPO=$WT VERIF_EVIDENCE_DIR=/tmp/wt/ev /verif/check $ID --tier $TIER > /tmp/wt/chk_$1_$ID.log 2>&1; RC=$?
 git -C /repo worktree remove --force $WT
+FPS=$(grep -o 'fingerprint=[^ ]*' /tmp/wt/chk_$1_$ID.log | sort -u | sed 's/fingerprint=//' | tr '\n' ' ')
+/venv/bin/python /verif/tools/seed_meta.py $1 $ID $RC $FPS
 echo "seed=$1 check=$ID tier=$TIER exit=$RC $(grep -c '^VIOLATION' /tmp/wt/chk_$1_$ID.log) violation lines; fingerprints: $(grep -o 'fingerprint=[^ ]*' /tmp/wt/chk_$1_$ID.log | sort -u | tr '\n' ' ')"
